@@ -27,7 +27,7 @@ ASSUMPTIONS = ["Python json / float repr round-trips floats exactly; mesh format
 FLOORS = {'quick': {'json': 300, 'smesh': 60, 'vmesh': 40, 'txt': 150, 'csv': 80, 'file-layout': 200, 'reimport-eval': 1500,
                     'trims': 40, 'container': 40},
           'thorough': {'json': 3000, 'reimport-eval': 15000}}
-MANDATORY_TAGS = ['curve', 'surface', 'volume', 'rational', 'nonrational', 'container', 'container:ten-or-more', 'fmt:txt-volume', 'trims', 'fmt:json', 'fmt:smesh', 'fmt:vmesh',
+MANDATORY_TAGS = ['curve', 'surface', 'volume', 'rational', 'nonrational', 'container', 'container:ten-or-more', 'fmt:txt-volume', 'unnormalized:inside-unit-interval', 'trims', 'fmt:json', 'fmt:smesh', 'fmt:vmesh',
                   'fmt:txt1d', 'fmt:txt2d', 'fmt:csv', 'unnormalized']
 TECHNIQUE = ("runtime monitoring: round-trip oracle on every export/import pair (structural equality within printed precision + "
              "exact reference evaluation of the re-imported shape) and an independent harness-side parser of the written files")
@@ -50,8 +50,10 @@ def gen(rng, tier, shard, nshards):
     n = 60 if tier == 'quick' else 500
     for i in range(n):
         pdim = rng.choice([1, 2, 2, 3])
+        sub01 = rng.random() < 0.12     # un-normalised knot vectors on a range INSIDE [0, 1] (but not [0, 1] itself)
         sd = G.rand_shape(rng, pdim, dim=3 if pdim > 1 else rng.choice([2, 3]), clamped_only=True, maxextra=3, maxdeg=3,
-                          normalize=rng.random() < 0.8)
+                          normalize=rng.random() < 0.8 and not sub01,
+                          **(dict(lohi=rng.choice([(0.25, 0.75), (0.0, 0.5), (0.0, 2.0 ** -20), (0.5, 1.0)])) if sub01 else {}))
         yield {'kind': 'single', 'sd': sd, 'seed': rng.randrange(1 << 30), 'trims': pdim == 2 and rng.random() < 0.5}
         if i % 4 == 0:
             pd = rng.choice([1, 2, 3])
@@ -125,6 +127,8 @@ def check(case, ctx):
     S0 = G.defn_of(o)
     ctx.tag({1: 'curve', 2: 'surface', 3: 'volume'}[pdim], 'rational' if sd['rational'] else 'nonrational',
             'normalized' if sd['normalize_kv'] else 'unnormalized')
+    if not sd['normalize_kv'] and all(0.0 <= kv[0] and kv[-1] <= 1.0 for kv in sd['kvs']) and any(kv[0] != 0.0 or kv[-1] != 1.0 for kv in sd['kvs']):
+        ctx.tag('unnormalized:inside-unit-interval')
     # non-default sampling density
     if pdim == 1:
         o.sample_size = rng.randint(3, 30)
